@@ -175,6 +175,15 @@ def observe_media(cls, via_instance=False):
 def run_media_case(env, rec, case):
     spec = case["spec"]
     env.n += 1
+    if env.n % 500 == 0:
+        # the library keeps the resolved Media of every class it has ever seen in a module-level dict (strong keys);
+        # the classes of finished cases are dropped from it so that a shard of 150k hierarchies stays within memory
+        import gc
+
+        import django_components.component_media as _cm
+
+        _cm.media_cache.clear()
+        gc.collect()
     n = len(spec)
     ref = reference_media(spec)
     orders = [list(range(n - 1, -1, -1)), list(range(n)), case.get("shuffle") or list(range(n)), list(range(n - 1, -1, -1))]
